@@ -137,7 +137,8 @@ func (t *Dense) Reshape(dims ...int) error {
 		return errors.Errorf("Cannot reshape %v into %v", t.Shape(), dims)
 	}
 
-	if t.viewOf != 0 && t.o.IsNotContiguous() {
+	if t.o.IsNotContiguous() {
+		// also the clone of such a view: it owns its memory but keeps the view's gaps
 		return errors.Errorf(methodNYI, "Reshape", "non-contiguous views")
 	}
 
@@ -187,7 +188,9 @@ func (t *Dense) IsView() bool {
 
 // IsMaterializeable indicates if the Tensor is materializable - if it has either gone through some transforms or slicing
 func (t *Dense) IsMaterializable() bool {
-	return t.viewOf != 0 || !t.old.IsZero()
+	// a tensor that owns its memory can have gaps between its elements too: the clone of a
+	// non-contiguous view copies the view's whole window and keeps its strides
+	return t.viewOf != 0 || !t.old.IsZero() || t.o.IsNotContiguous()
 }
 
 // IsManuallyManaged returns true if the memory associated with this *Dense is manually managed (by the user)
